@@ -93,6 +93,8 @@ def run(ctx):
     wl = [n for n in walk_own(ww.node) if isinstance(n, ast.While)]
     okw = False
     why = 'no wait loop'
+    if not wl:
+        raise AnalysisError('the dispatch routine has no wait loop: shape not modelled')
     if wl:
         t = wl[0].test
         has_elapsed = any(isinstance(x, ast.BinOp) and isinstance(x.op, ast.Sub) and isinstance(x.left, ast.Call) and norm(x.left.func).endswith('time') for x in ast.walk(t))
